@@ -18,9 +18,15 @@ state between `create` and `writeAll`).  Clauses of the property and where they 
   AsyncManager            `async_eq_sync`, `async_reader_safe`, `async_without_wait_differs`
   repaired / known defects `f10_*` (fixed in /repo), `orbax_overwrite_*` (finding F15)
   modelling choices       `newerOf_eq_drop` (positional code = value-based model), `policy_scale` (integer step values)
+  natural_sort (A-NAT for integer steps, character-level model `Model/NatSort.lean`)
+                          `natural_sort_key_of_step_name`, `natural_sort_compares_by_value`, `natural_sort_orders_by_value`,
+                          `natural_sort_latest_is_max`, `natural_sort_tmp_sorts_last`, `listing_is_natural_sort` (both models
+                          composed), `natural_sort_sign_prefix_misorders` (finding F6)
+  Orbax retry             `retry_after_crash_orbax`
 -/
 import Flax.Model.Ckpt
 import Flax.Proofs.Ckpt
+import Flax.Proofs.NatSort
 
 namespace Flax.C11
 open Flax.Ckpt
@@ -591,6 +597,95 @@ theorem retry_after_crash_legacy {cfg : Cfg} {d d1 : Dir} (hI : Inv d) (hb : cfg
         exact ⟨cfg.step, Files.mem_steps.mpr ⟨_, hmem, rfl⟩, Int.le_refl _⟩
     · rw [hb] at h; cases h
 
+/-- Retrying the interrupted call (**Orbax back-end**, under A-ORBAX: the step sequence of `prepare`/`commit`): after a
+crash at any point the retry succeeds, unless the commit rename had already happened (`k` is past the last step of
+`prepare`) and the step is still listed — then, without `overwrite`, Orbax refuses the existing destination; what is
+listed there is the new checkpoint, complete, or (only if the retention had already started to delete this very step
+because it is older than the `keep` newest) a half-deleted directory strictly below the latest checkpoint.
+No `InPlaceFree` hypothesis: with `overwrite` the retry never raises, without it nothing is deleted in place. -/
+theorem retry_after_crash_orbax {cfg : Cfg} {d d1 : Dir} (hI : Inv d) (hb : cfg.backend = .orbax)
+    (hfirst : save cfg d = .ok d1) (k : Nat) :
+    (∃ d'', save cfg (crashed cfg d k) = .ok d'') ∨
+    (cfg.overwrite = false ∧ (prepare cfg d).length < k ∧
+      save cfg (crashed cfg d k) = .error .destinationExists ∧
+      (restoreStep (crashed cfg d k) cfg.step = .ok cfg.payload ∨
+        (restoreStep (crashed cfg d k) cfg.step = .error .corrupt ∧
+          ∃ m, latest (crashed cfg d k) = some m ∧ cfg.step < m.1))) := by
+  cases ho : cfg.overwrite with
+  | true => exact Or.inl (overwrite_never_raises _ ho)
+  | false =>
+    have hf : InPlaceFree cfg d := by intro h; rw [ho] at h; cases h.1
+    have hc : check cfg d = .ok () := by
+      cases hc : check cfg d with
+      | error e => rw [aux_save_eq, hc] at hfirst; cases hfirst
+      | ok u => rfl
+    have hnot : cfg.step ∉ listing d := by
+      intro h
+      have := (orbax_rejects_iff d hb ho).mpr h
+      rw [this] at hfirst; cases hfirst
+    -- if the step is not listed after the crash, the retry passes Orbax's check
+    have hfree : cfg.step ∉ listing (crashed cfg d k) → ∃ d'', save cfg (crashed cfg d k) = .ok d'' := by
+      intro hn
+      cases hs : save cfg (crashed cfg d k) with
+      | ok d'' => exact ⟨d'', rfl⟩
+      | error e =>
+        exfalso
+        have hg : (Files.get cfg.step (crashed cfg d k).ckpts).isSome = false := by
+          cases hg : (Files.get cfg.step (crashed cfg d k).ckpts).isSome with
+          | false => rfl
+          | true => exact absurd ((Files.get_isSome_iff _ _).mp hg) hn
+        have hc2 : check cfg (crashed cfg d k) = .ok () := by simp [check, hb, ho, hg]
+        rw [aux_save_eq, hc2] at hs; cases hs
+    by_cases hk : k ≤ (prepare cfg d).length
+    · left
+      apply hfree
+      have := crashed_before_commit hc (fun _ => hf) hk
+      simpa [listing, this] using hnot
+    · by_cases hin : cfg.step ∈ listing (crashed cfg d k)
+      · right
+        obtain ⟨hS, _, htorn⟩ := crash_safe_orbax hI hb hf k
+        refine ⟨rfl, by omega, (orbax_rejects_iff _ hb ho).mpr hin, ?_⟩
+        obtain ⟨e, he, hes⟩ := Files.mem_steps.mp hin
+        obtain ⟨x, cnt⟩ := e
+        simp only at hes
+        subst hes
+        have hget := (Files.get_eq_some_iff hS _ _).mpr he
+        cases cnt with
+        | torn =>
+          right
+          exact ⟨by simp [restoreStep, hget], htorn _ he rfl⟩
+        | complete p =>
+          left
+          -- a complete entry at the saved step after the crash is the new one: the step was not listed before
+          have hp : p = cfg.payload := by
+            rcases crashed_shape hI.sorted hc (fun _ => hf) k with h | ⟨j, h | ⟨_, y, _, h⟩⟩
+            · rw [h] at he
+              exact absurd (Files.mem_steps.mpr ⟨_, he, rfl⟩) hnot
+            · rw [h] at he
+              rcases (Files.mem_put_of_sorted hI.sorted _).mp (Files.mem_delAll.mp he).1 with h1 | ⟨h1, _⟩
+              · cases h1; rfl
+              · exact absurd (Files.mem_steps.mpr ⟨_, h1, rfl⟩) hnot
+            · rw [h] at he
+              have hSG := Files.sorted_delAll ((removals cfg.keep cfg.everyN cfg.overwrite cfg.step
+                (d.ckpts.put cfg.step (.complete cfg.payload)).steps).take j)
+                (Files.sorted_put cfg.step (.complete cfg.payload) hI.sorted)
+              rcases Files.mem_damage hSG y _ he with ⟨h1, _⟩ | ⟨h1, _⟩
+              · cases h1
+              · rcases (Files.mem_put_of_sorted hI.sorted _).mp (Files.mem_delAll.mp h1).1 with h2 | ⟨h2, _⟩
+                · cases h2; rfl
+                · exact absurd (Files.mem_steps.mpr ⟨_, h2, rfl⟩) hnot
+          subst hp
+          simp [restoreStep, hget]
+      · exact Or.inl (hfree hin)
+
+/-- both outcomes of `retry_after_crash_orbax` occur -/
+example : ∃ d'', save { backend := .orbax, step := 5, payload := 5, keep := 2, everyN := 0, overwrite := false }
+    (crashed { backend := .orbax, step := 5, payload := 5, keep := 2, everyN := 0, overwrite := false }
+      { ckpts := [(3, .complete 3), (4, .complete 4)] } 2) = .ok d'' := ⟨_, rfl⟩
+example : save { backend := .orbax, step := 5, payload := 5, keep := 2, everyN := 0, overwrite := false }
+    (crashed { backend := .orbax, step := 5, payload := 5, keep := 2, everyN := 0, overwrite := false }
+      { ckpts := [(3, .complete 3), (4, .complete 4)] } 4) = .error .destinationExists := rfl
+
 /-- **crash, then continue** (legacy back-end): from any reachable directory, after a crash at any point of
 any save, any later step saves normally and re-establishes the retention policy; the result is again reachable,
 so this can be repeated for ever. -/
@@ -1031,5 +1126,147 @@ example : (8 : Int) ∈ uptoOf false 9 (insertStep 9 [2, 4, 5, 8]) ∧
 -- `async_reader_safe`
 example : Reachable Dir.empty ∧ ∀ c ∈ [exCfg 1 1, exCfg 2 2], c.backend = .legacy :=
   ⟨Reachable.empty, by intro c hc; simp at hc; rcases hc with rfl | rfl <;> rfl⟩
+
+
+/-! ## natural_sort orders printed integer steps by value (the part of A-NAT that is flax's own code)
+
+Character-level model `Flax/Model/NatSort.lean` of `SIGNED_FLOAT_RE.split`, `maybe_num` and `sorted(key=…)`.
+Guard: the last character of what precedes the printed step (directory, separator and prefix together) is *inert*:
+not a digit, not `+`/`-`, not `.`, not `e`/`E`.  Nothing is required of the earlier characters (temp-dir names with
+digits, dots, signs are fine).  Steps are Python ints, printed by `str`. -/
+
+open Flax.NatSort in
+/-- the key of `<anything ending in an inert character><printed int>`: the tokens of the part before the number and
+the pending text do not depend on the step; then come the step as one number token and an empty text -/
+theorem natural_sort_key_of_step_name (Q : List Char) (c : Char) (hc : Inert c) :
+    ∃ K A, ∀ n : Int,
+      natKey (stepName (Q ++ [c]) n) = K ++ [KElem.str A, KElem.num (decOf (showInt n)), KElem.str []] := by
+  obtain ⟨toks, acc', h⟩ := scan_stable c hc Q 0 [] (Nat.zero_le _)
+  refine ⟨toks.map keyOfTok, acc' ++ [c], fun n => ?_⟩
+  have : stepName (Q ++ [c]) n = Q ++ c :: showInt n := by simp [stepName]
+  rw [this]
+  simp only [natKey, tokens, h, scan_showInt, List.map_append, List.map_cons, List.map_nil, keyOfTok]
+
+open Flax.NatSort in
+/-- Python's comparison of the two keys is the comparison of the two step values -/
+theorem natural_sort_compares_by_value (Q : List Char) (c : Char) (hc : Inert c) (a b : Int) :
+    keyCmp (natKey (stepName (Q ++ [c]) a)) (natKey (stepName (Q ++ [c]) b)) = compare a b := by
+  obtain ⟨K, A, h⟩ := natural_sort_key_of_step_name Q c hc
+  rw [h a, h b, keyCmp_append_left]
+  have ha := decOf_showInt a
+  have hb := decOf_showInt b
+  simp only [keyCmp, elemCmp, strCmp_self, decCmp, ha.1, hb.1, ha.2, hb.2, if_true]
+  rcases int_compare_cases a b with ⟨h1, _⟩ | ⟨h1, _⟩ | ⟨h1, _⟩ <;> simp [h1]
+
+open Flax.NatSort in
+/-- `natural_sort` of any list of such names (any order, repetitions allowed) is the list sorted by step value -/
+theorem natural_sort_orders_by_value (Q : List Char) (c : Char) (hc : Inert c) (ns : List Int) :
+    natSort (ns.map (stepName (Q ++ [c]))) = (sortBy intLe ns).map (stepName (Q ++ [c])) ∧
+    (sortBy intLe ns).Pairwise (· ≤ ·) ∧ (∀ x, x ∈ sortBy intLe ns ↔ x ∈ ns) := by
+  refine ⟨?_, sorted_sortBy_int ns, fun x => mem_sortBy intLe x ns⟩
+  unfold natSort
+  apply sortBy_map
+  intro a b
+  simp only [natLe, natural_sort_compares_by_value Q c hc, intLe]
+  rcases int_compare_cases a b with ⟨h1, h2⟩ | ⟨h1, h2⟩ | ⟨h1, h2⟩
+  · have : a ≤ b := by omega
+    simp [h1, this]
+  · have : a ≤ b := by omega
+    simp [h1, this]
+  · have : ¬ a ≤ b := by omega
+    simp [h1, this]
+
+open Flax.NatSort in
+/-- `latest_checkpoint` (the last name of the natural_sort) is the name of the numerically largest step -/
+theorem natural_sort_latest_is_max (Q : List Char) (c : Char) (hc : Inert c) (ns : List Int) (hne : ns ≠ []) :
+    ∃ m ∈ ns, (∀ x ∈ ns, x ≤ m) ∧
+      (natSort (ns.map (stepName (Q ++ [c])))).getLast? = some (stepName (Q ++ [c]) m) := by
+  obtain ⟨h1, h2, h3⟩ := natural_sort_orders_by_value Q c hc ns
+  cases hl : (sortBy intLe ns).getLast? with
+  | none =>
+    have : sortBy intLe ns = [] := List.getLast?_eq_none_iff.mp hl
+    obtain ⟨x, hx⟩ := List.exists_mem_of_ne_nil _ hne
+    have := (h3 x).mpr hx
+    simp_all
+  | some m =>
+    refine ⟨m, (h3 m).mp (List.mem_of_getLast? hl), ?_, ?_⟩
+    · intro x hx
+      exact le_getLast_of_sorted h2 hl x ((h3 x).mpr hx)
+    · rw [h1, List.getLast?_map, hl]; rfl
+
+open Flax.NatSort in
+/-- `<prefix>tmp` (any non-empty suffix free of number characters) sorts after every numbered name of the same prefix:
+this is what `_check_overwrite_error` relies on when it pops a trailing temp file -/
+theorem natural_sort_tmp_sorts_last (Q : List Char) (c : Char) (hc : Inert c) (T : List Char) (hT : ∀ x ∈ T, Inert x)
+    (hne : T ≠ []) (n : Int) :
+    keyCmp (natKey (stepName (Q ++ [c]) n)) (natKey (Q ++ [c] ++ T)) = .lt := by
+  obtain ⟨toks, acc', h⟩ := scan_stable c hc Q 0 [] (Nat.zero_le _)
+  have h1 : stepName (Q ++ [c]) n = Q ++ c :: showInt n := by simp [stepName]
+  have h2 : Q ++ [c] ++ T = Q ++ c :: T := by simp
+  rw [h1, h2]
+  simp only [natKey, tokens, h, scan_showInt, scan_inert T hT, List.map_append, List.map_cons, List.map_nil, keyOfTok,
+    keyCmp_append_left]
+  cases T with
+  | nil => exact absurd rfl hne
+  | cons x r =>
+    have hlt : strCmp (acc' ++ [c]) (acc' ++ c :: x :: r) = .lt := by
+      have := strCmp_proper_prefix (acc' ++ [c]) x r
+      simpa using this
+    simp [keyCmp, elemCmp, hlt]
+
+open Flax.NatSort in
+example : ∀ x ∈ "tmp".toList, Inert x := by
+  intro x hx
+  simp at hx
+  rcases hx with rfl | rfl | rfl <;> exact ⟨by decide, by decide, by decide, by decide⟩
+
+open Flax.NatSort in
+/-- **The two models composed.**  The directory model keeps the final names ascending by step value; this is exactly what
+`natural_sort` returns for their printed names, in whatever order `listdir` hands them over (`ns`), and the last of
+them is the name of `latest`.  (Integer steps; guard on the character before the number as above.) -/
+theorem listing_is_natural_sort (Q : List Char) (c : Char) (hc : Inert c) {d : Dir} (hS : d.ckpts.Sorted)
+    (ns : List Int) (hp : ns.Perm (listing d)) :
+    natSort (ns.map (stepName (Q ++ [c]))) = (listing d).map (stepName (Q ++ [c])) ∧
+    (natSort (ns.map (stepName (Q ++ [c])))).getLast? = (latest d).map (fun e => stepName (Q ++ [c]) e.1) := by
+  obtain ⟨h1, h2, h3⟩ := natural_sort_orders_by_value Q c hc ns
+  have hasc : Asc (listing d) := (Files.sorted_iff_steps _).mp hS
+  have hnd : (sortBy intLe ns).Nodup :=
+    (sortBy_perm intLe ns).nodup_iff.mpr (hp.nodup_iff.mpr (asc_nodup hasc))
+  have hasc2 : Asc (sortBy intLe ns) :=
+    List.Pairwise.imp (fun {a b} (h : a ≤ b ∧ a ≠ b) => by omega) (List.Pairwise.and h2 hnd)
+  have heq : sortBy intLe ns = listing d :=
+    asc_ext hasc2 hasc (fun x => (h3 x).trans hp.mem_iff)
+  rw [h1, heq]
+  refine ⟨rfl, ?_⟩
+  simp only [listing, Files.steps, latest, List.getLast?_map, Option.map_map]
+  rfl
+
+open Flax.NatSort in
+/-- the guard is met by the usual prefixes (here the last character of `checkpoint_`, of a path separator, of a letter) -/
+example : Inert '_' ∧ Inert '/' ∧ Inert 't' ∧ Inert 'l' := by
+  refine ⟨?_, ?_, ?_, ?_⟩ <;> exact ⟨by decide, by decide, by decide, by decide⟩
+
+open Flax.NatSort in
+example : natSort ["/tmp/a1.5-x/checkpoint_10".toList, "/tmp/a1.5-x/checkpoint_-3".toList, "/tmp/a1.5-x/checkpoint_9".toList] =
+    ["/tmp/a1.5-x/checkpoint_-3".toList, "/tmp/a1.5-x/checkpoint_9".toList, "/tmp/a1.5-x/checkpoint_10".toList] := by decide
+
+open Flax.NatSort in
+/-- finding F6 (known, not repaired), now a statement about the tokeniser: with a prefix ending in `-` the sign is
+read into the number, `ckpt-10` has the key `["ckpt", -10, ""]`, sorts *before* `ckpt-5`, and the latest of steps 5 and 10
+is step 5.  The guard of the theorems above cannot be dropped; the same happens for `.`, a digit, and `e` after a digit. -/
+theorem natural_sort_sign_prefix_misorders :
+    tokens "ckpt-10".toList = [Tok.text "ckpt".toList, Tok.num "-10".toList, Tok.text []] ∧
+    natSort ["ckpt-5".toList, "ckpt-10".toList] = ["ckpt-10".toList, "ckpt-5".toList] ∧
+    (natSort ["ckpt-5".toList, "ckpt-10".toList]).getLast? = some "ckpt-5".toList := by decide
+
+open Flax.NatSort in
+example : natSort ["v.5".toList, "v.10".toList] = ["v.10".toList, "v.5".toList] := by decide        -- `.10` < `.5`
+open Flax.NatSort in
+example : natSort ["v25".toList, "v210".toList, "v23".toList] = ["v23".toList, "v25".toList, "v210".toList] := by decide  -- prefix `v2`, steps 5, 10, 3
+open Flax.NatSort in
+example : natSort ["r2e3".toList, "r2e10".toList, "r2e-1".toList] = ["r2e-1".toList, "r2e3".toList, "r2e10".toList] := by decide  -- read as 2e3, 2e10, 2e-1: happens to agree; but
+open Flax.NatSort in
+example : natSort ["r2e3".toList, "r2e-4".toList] = ["r2e-4".toList, "r2e3".toList] ∧
+    tokens "r2e3".toList = [Tok.text "r".toList, Tok.num "2e3".toList, Tok.text []] := by decide  -- the step is not a token of its own
 
 end Flax.C11
